@@ -138,4 +138,13 @@ def signedMagnitude (s : List Nat) : Option Int :=
 /-- the number denoted by a character string: optional white space, optional sign, C integer literal -/
 def numeral (s : List Nat) : Option Int := signedMagnitude (s.dropWhile isSpace)
 
+/-- what the property allows as the outcome `(stored bits, consumed)` of an accepted text conversion:
+    the consumed prefix is a numeral of an in-range number which the stored object denotes (query mode: nothing is
+    stored), or it is blank and nothing is stored -/
+def TextOK (tgt : Ty) (s : List Nat) (d : Bool) (o : Option Nat) (n : Nat) : Prop :=
+  n ≤ s.length ∧
+  ((o = none ∧ (s.take n).all isSpace = true) ∨
+   (∃ v, numeral (s.take n) = some v ∧ inRange tgt v ∧
+      ((d = true ∧ ∃ bits, o = some bits ∧ denote tgt bits = v) ∨ (d = false ∧ o = none))))
+
 end Mpt.Scalar
